@@ -493,6 +493,7 @@ class C01(PropertyCheck):
         "QipVerif.C01.propagators_product_rtl_eq_den_reverse",
         "QipVerif.C01.propagators_compact_eq",
         "QipVerif.C01.compact_pipeline_eq_den",
+        "QipVerif.C01.library_circuit_eq_denG",
     ]
     technique = ("Lean 4 proof (list combinatorics of the einsum index lists; contraction = embedded operator via the split "
                  "equivalence; induction over the gate list; invariant of the block list of the compact product) + "
